@@ -24,5 +24,19 @@ for m in /verif/selftest/mutants/*.patch; do
   else echo "SELFTEST $base: caught ($(echo "$out" | grep -c '^VIOLATION') violation lines)"; fi
   rm -rf "$scratch"
 done
+# harmless-edit corpus: behaviour-preserving edits must stay green
+for m in /verif/selftest/harmless/*.patch; do
+  [ -f "$m" ] || continue
+  base=$(basename "$m" .patch)
+  prop=${base%%-*}
+  if [ -n "$props" ]; then case " $props " in *" $prop "*) ;; *) continue;; esac; fi
+  scratch=$(mktemp -d /tmp/gvc-selftest-XXXXXX)
+  rsync -a --exclude .git /repo/ "$scratch/repo/"; mkdir -p "$scratch/out"
+  if ! (cd "$scratch/repo" && patch -s -p1 < "$m"); then echo "SELFTEST harmless $base: patch does not apply"; fail=1; rm -rf "$scratch"; continue; fi
+  out=$(GVC_OUT="$scratch/out" /verif/bin/gvc check --property "$prop" --tier quick --repo "$scratch/repo" 2>&1); rc=$?
+  if [ $rc -ne 0 ]; then echo "SELFTEST harmless $base: FALSE ALARM"; echo "$out" | grep "^gvc: obligation" | head -3; fail=1
+  else echo "SELFTEST harmless $base: quiet"; fi
+  rm -rf "$scratch"
+done
 echo "selftest: $n mutants run, fail=$fail"
 exit $fail
